@@ -59,6 +59,7 @@ class BlockResult:
     syntax_errors: List[str] = field(default_factory=list)
     optional_alias_in_key: List[Tuple[str, str]] = field(default_factory=list)  # (skeleton, generator path)
     sentinel_problems: List[str] = field(default_factory=list)
+    handler_problems: List[str] = field(default_factory=list)
 
 
 def explore_build(repo: Repo):
@@ -186,6 +187,16 @@ def analyse(repo: Repo) -> BlockResult:
             if isinstance(call, ast.Call) and isinstance(call.func, ast.Attribute) and call.func.attr == "get" and ast.unparse(call.func.value) == "d":
                 if len(call.args) != 2 or ast.unparse(call.args[1]) != "MISSING":
                     res.sentinel_problems.append(r.describe(ast.unparse(call)))
+        # handler structure (C05): the conversion of a field is guarded by exactly one catch-all handler that raises
+        # InvalidFieldValue for *this* field; any other handler (a re-raise of an inner InvalidFieldValue, a narrower class) lets a
+        # failure escape with another culprit or unwrapped
+        for tnode in ast.walk(tree):
+            if isinstance(tnode, ast.Try):
+                hs = tnode.handlers
+                ok_h = (len(hs) == 1 and (hs[0].type is None or ast.unparse(hs[0].type) in ("Exception", "BaseException")) and len(hs[0].body) == 1
+                        and isinstance(hs[0].body[0], ast.Raise) and hs[0].body[0].exc is not None and ast.unparse(hs[0].body[0].exc).startswith("InvalidFieldValue("))
+                if not ok_h:
+                    res.handler_problems.append(r.describe("; ".join("except " + (ast.unparse(h.type) if h.type else "") + ": " + " / ".join(ast.unparse(b)[:60] for b in h.body) for h in hs)))
         fn = tree.body[0]
         conv_markers = roles.conv
 
